@@ -65,16 +65,40 @@ def _with_number_stubs(f):
             del D.float
 
 
+def _outcome(f):
+    try:
+        return ("value", f())
+    except ValueError:
+        return ("ValueError", None)
+
+
+def _same_number(a, b):
+    if isinstance(a, float) and isinstance(b, float) and a != a and b != b:
+        return True
+    return (type(a) is type(b)) & (a == b)
+
+
+def _parsed_like(kind, got, parser, name, text):
+    """`got` is what the adapter returned for a field whose text without padding is `text`: the stand-in token if the adapter reached the
+    shadowed parser, otherwise (the module binds int/float elsewhere) exactly what CPython's parser gives for the same text"""
+    if kind == "value" and isinstance(got, Tok):
+        return got == Tok(name, text)
+    ref = _outcome(lambda: parser(text))
+    if ref[0] != kind:
+        return False
+    return True if kind == "ValueError" else _same_number(got, ref[1])
+
+
 def ascii_int_ok(s: str) -> bool:
     """
     pre: len(s) <= MAXLEN and all(ord(c) < 128 for c in s)
     post: _
     """
-    got = _with_number_stubs(lambda: D.AsciiInteger._decode(None, s, None, None))
+    kind, got = _outcome(lambda: _with_number_stubs(lambda: D.AsciiInteger._decode(None, s, None, None)))
     t = _core(s)
     if t == "":
-        return (got == -1) & isinstance(got, int)
-    return got == Tok("int", t)
+        return (kind == "value") & (got == -1) & isinstance(got, int)
+    return _parsed_like(kind, got, int, "int", t)
 
 
 def ascii_float_ok(s: str) -> bool:
@@ -82,9 +106,9 @@ def ascii_float_ok(s: str) -> bool:
     pre: len(s) <= MAXLEN and all(ord(c) < 128 for c in s)
     post: _
     """
-    got = _with_number_stubs(lambda: D.AsciiFloat._decode(None, s, None, None))
+    kind, got = _outcome(lambda: _with_number_stubs(lambda: D.AsciiFloat._decode(None, s, None, None)))
     t = _core(s)
-    return got == Tok("float", "nan" if t == "" else t)
+    return _parsed_like(kind, got, float, "float", "nan" if t == "" else t)
 
 
 def padded_string_ok(s: str) -> bool:
